@@ -7,10 +7,11 @@ CLAIM = {
  'text': ('Lean 4 theorems about a model of XmlStream/XhtmlStream/Element and an XML 1.0 recogniser/decoder: '
           'encode_decodes / encode_decodes_attr (every string of XML-representable characters written by _encode is read '
           'back unchanged as character data and as an attribute value, TAB/LF/CR included), stream_wellformed (every '
-          'sequence of startElement/characters/literal/comment/endElement/xmlSpacePreserve calls that forms one document '
+          'sequence of startElement/characters/literal/comment/pI/endElement/xmlSpacePreserve calls that forms one document '
           'element, closed by __exit__, is accepted by the recogniser; xhtml_stream_wellformed the same for XhtmlStream), '
           'element_decodes (an element with any attribute dictionary and any text is decoded to exactly that name, those '
-          'attribute values and that text), comment_wellformed (whatever string is passed to comment(), the comment written '
+          'attribute values and that text), stream_decodes (whole trees: the decoder reports exactly the events the calls asked for, '
+          'the only admissible difference being newline+spaces immediately before a tag outside mixed content), comment_wellformed (whatever string is passed to comment(), the comment written '
           'is legal), encode_illegal_ref (negation witness for the known finding F13-xml-illegal-char-reference), '
           'rle_xml_roundtrip (the datum/stride/repeat attributes of xml_rle_write expand '
           'to the integer list that was run-length encoded). Proof is the right level for the writer core: the claim is '
@@ -38,7 +39,7 @@ RULE = ('xmlenc: every single code point in U+0000..U+02FF plus all Char-product
 ASSUMPTIONS = [
  'a document is "parseable" when both lxml (libxml2, recover=False) and xml.dom.minidom (expat) accept it; "recovered unchanged" compares their reported attribute values / text with the Python strings passed to the writer',
  'element and attribute names passed to the writer are XML Names and processing-instruction targets are legal (they are program constants in every producer; names are not escaped by the writer)',
- 'stream_wellformed assumes the calls form exactly one document element (XML requires it) and that literal() text is plain character data',
+ 'stream_wellformed assumes the calls form exactly one document element (XML requires it), that literal() text is plain character data and that a pI() string is an ASCII target optionally followed by one blank and data',
  'indentation: in an element without character data the writer inserts newline+spaces before tags; this whitespace is accepted as not being data; inside an element that has character data nothing may be inserted (checked)',
  'lone surrogates cannot be Lean characters: they are covered by the oracle only',
  'RLE theorem: integer values (frame numbers, positions); float X axes are compared by the end-to-end oracle only',
